@@ -24,7 +24,7 @@ def gen_body(rnd, depth, budget, fnames, in_fn, tagc, scoped=False):
         if budget[0] <= 0: break
         budget[0] -= 1
         kinds = ['emit', 'emit', 'call', 'set']
-        if depth > 0: kinds += ['if', 'for']
+        if depth > 0: kinds += ['if', 'for', 'ifcall']
         if in_fn: kinds += ['return', 'return']
         k = rnd.choice(kinds)
         if k == 'emit':
@@ -40,7 +40,16 @@ def gen_body(rnd, depth, budget, fnames, in_fn, tagc, scoped=False):
             out.append(('if', [(c, gen_body(rnd, depth - 1, budget, fnames, in_fn, tagc, scoped))], gen_body(rnd, depth - 1, budget, fnames, in_fn, tagc, scoped) if rnd.random() < 0.4 else None))
         elif k == 'for':
             out.append(('for', 'i', rnd.choice(['arr', '1'] if in_fn else ['arr']), gen_body(rnd, depth - 1, budget, fnames, in_fn, tagc, scoped)))
+        elif k == 'ifcall':
+            if not fnames: continue
+            out.append(gen_ifcall(rnd, rnd.choice(fnames), gen_body(rnd, depth - 1, budget, fnames, in_fn, tagc, scoped), gen_body(rnd, depth - 1, budget, fnames, in_fn, tagc, scoped) if rnd.random() < 0.4 else None))
     return out
+
+
+def gen_ifcall(rnd, fname, then_body, else_body):
+    """a call in condition position: if [not] f args ... [else ...] end. The argument values are concrete words (they are re-serialised by
+    utils::eval::parse on the way, which is C09's subject)"""
+    return ('ifcall', rnd.random() < 0.3, fname, [rnd.choice(['a', 'true', 'false', ('var', 'c1'), ('var', 'c2')]) for _ in range(rnd.randint(0, 2))], then_body, else_body)
 
 
 def gen_program(rnd, depth, size):
@@ -64,6 +73,10 @@ def gen_program(rnd, depth, size):
         for _ in range(2):
             tagc[0] += 1
             main.append(('call', 'y%d' % tagc[0], n, [rnd.choice(['true', ('var', 'arr'), 'a'])])); main.append(('emit', [('var', 'y%d' % tagc[0])]))
+        # the same function in condition position (its value decides the branch; ending without a value is falsy), then called again
+        tagc[0] += 1
+        main.append(gen_ifcall(rnd, n, [('emit', ['T%d' % k_])], [('emit', ['F%d' % k_])]))
+        main.append(('call', 'y%d' % tagc[0], n, [rnd.choice(['true', 'a'])])); main.append(('emit', [('var', 'y%d' % tagc[0])]))
         if not fns[k_][1]:
             # not <scope>: the output variable already holds a value (set by hand, then left by the previous call); a call that ends
             # without a value must leave it undefined (for <scope> functions this corner is left open by the property)
@@ -89,6 +102,10 @@ def render(fns, main, sp, rnd):
                 lines.append(rnd.choice(sp[ENDIF] + sp[END]))
             elif st[0] == 'for':
                 lines.append('%s %s in ${%s}' % (rnd.choice(sp[FOR]), st[1], st[2])); blk(st[3]); lines.append(rnd.choice(sp[ENDFOR] + sp[END]))
+            elif st[0] == 'ifcall':
+                lines.append('%s %s%s%s' % (rnd.choice(sp[IF]), 'not ' if st[1] else '', st[2], ''.join(' ' + a(x) for x in st[3]))); blk(st[4])
+                if st[5] is not None: lines.append(rnd.choice(sp[ELSE])); blk(st[5])
+                lines.append(rnd.choice(sp[ENDIF] + sp[END]))
     for name, scoped, body in fns:
         lines.append('%s %s%s' % (rnd.choice(sp[FN]), '<scope> ' if scoped else '', name)); blk(body); lines.append(rnd.choice(sp[ENDFN] + sp[END]))
     blk(main)
@@ -105,34 +122,55 @@ def truthy_c(sv):
 def interp(fns, main, init, arrays):
     fmap = {n: (sc, b) for n, sc, b in fns}
     trace = [S(0, [])]
-    depth = [0]
-    unconstrained = set()
+    depth = [0]; cond = [0]
+    unconstrained = {}; keep = []          # id(env) -> names the property leaves open (see call below)
 
     def val(env, x):
-        if isinstance(x, tuple): return env.get(x[1], S(0, []))
+        if isinstance(x, tuple):
+            if x[1] in unconstrained.get(id(env), ()): raise RuntimeError('reads a variable the property leaves open (%s)' % x[1])
+            return env.get(x[1], S(0, []))
         return mk_str(x)
+
+    def assign(env, name, v):
+        unconstrained.get(id(env), set()).discard(name)
+        if v is None: env.pop(name, None)
+        else: env[name] = v
+
+    def call(env, out, fname, args):
+        sc, body = fmap[fname]
+        depth[0] += 1
+        if depth[0] > 6: raise RuntimeError('recursion too deep in the reference')
+        if out and not cond[0]: assign(env, out, None)              # the call itself yields no value
+        fenv = {} if sc else env
+        keep.append(fenv)
+        for i, v in enumerate(args): assign(fenv, str(i + 1), v)
+        rv = None
+        try: run(body, fenv)
+        except Return as r: rv = r.v
+        depth[0] -= 1
+        if out:
+            if rv is None and cond[0]:
+                # left open by the property: inside a function invoked in condition position, the output variable of a call that ends without a value
+                env.pop(out, None); unconstrained.setdefault(id(env), set()).add(out); keep.append(env)
+            else: assign(env, out, rv)
+        return rv
 
     def run(prog, env):
         for st in prog:
             if st[0] == 'emit':
                 for x in st[1]: trace[0] = str_concat(trace[0], val(env, x))
-            elif st[0] == 'set': env[st[1]] = val(env, st[2])
+            elif st[0] == 'set': assign(env, st[1], val(env, st[2]))
             elif st[0] == 'return': raise Return(None if st[1] is None else val(env, st[1]))
-            elif st[0] == 'call':
-                out, fname, args = st[1], st[2], [val(env, x) for x in st[3]]
-                sc, body = fmap[fname]
-                depth[0] += 1
-                if depth[0] > 6: raise RuntimeError('recursion too deep in the reference')
-                if out: env.pop(out, None)              # the call itself yields no value
-                fenv = {} if sc else env
-                for i, v in enumerate(args): fenv[str(i + 1)] = v
-                rv = None
-                try: run(body, fenv)
-                except Return as r: rv = r.v
-                depth[0] -= 1
-                if out:
-                    if rv is None: env.pop(out, None)
-                    else: env[out] = rv
+            elif st[0] == 'call': call(env, st[1], st[2], [val(env, x) for x in st[3]])
+            elif st[0] == 'ifcall':
+                args = [val(env, x) for x in st[3]]
+                cond[0] += 1
+                try: rv = call(env, None, st[2], args)
+                finally: cond[0] -= 1
+                t = rv is not None and truthy_c(rv)
+                if st[1]: t = not t
+                if t: run(st[4], env)
+                elif st[5] is not None: run(st[5], env)
             elif st[0] == 'if':
                 done = False
                 for c, b in st[1]:
@@ -143,10 +181,53 @@ def interp(fns, main, init, arrays):
                 items = arrays.get(h)
                 if items is None: raise RuntimeError('for over a non-array in the reference: %r' % h)
                 for it in items:
-                    env[st[1]] = it; run(st[3], env)
+                    assign(env, st[1], it); run(st[3], env)
     env = dict(init)
     run(main, env)
+    for n_ in unconstrained.get(id(env), ()): env[n_] = None          # None = left open
     return trace[0], env
+
+
+def engine_setup(ctx, lines, c1, c2, alen):
+    """the real registry (flowcontrol::load), an emit recorder, the variables and the array of one run"""
+    vs = ctx.types.enums['types::runtime::StateValue']; STR = vs.index('String'); LIST = vs.index('List'); SUB = vs.index('SubState')
+    e = ctx.engine(unwind=1500, max_rec=8); e.int_digits = 2      # a cap on fetch/execute iterations, far above any generated program's run
+    e.hooks['utils::state::put_handle'] = hook_put_handle
+    e.hooks['std::sync::atomic::Atomic::<bool>::load'] = lambda eng, st1, a, c: False
+    st = State(True, {})
+
+    def h_emit(eng, st1, a):
+        c = a[1]; vars_p = c.f[2]; mv = eng.deref(st1, vars_p)
+        # the trace lives in the state (not in the variables: scoped functions hide variables)
+        sp_ = c.f[1]; sm = eng.deref(st1, sp_)
+        f, tr, _ = map_lookup(eng, st1, sm, mk_str('harness::trace'))
+        old = tr.p[STR][0] if f is not False and isinstance(tr, E) else S(0, [])
+        add = S(0, [])
+        for i, x in enumerate(c.f[0].it): add = merge(simp(i < c.f[0].len), str_concat(add, x), add)
+        m2, _, _ = map_insert(eng, st1, sm, mk_str('harness::trace'), E('types::runtime::StateValue', STR, {STR: [str_concat(old, add)]}))
+        eng.store(st1, sp_, m2)
+        return E(CRES, 0, {0: [none()]})
+    e.dyn_impls[('harness::Emit', 'run')] = h_emit
+    e.dyn_impls[('harness::Emit', 'clone_and_box')] = lambda eng, st1, a: eng.alloc(st1, a[0])
+    st.m[(0, 'cmds')] = T([M([(True, mk_str('emit'), e.alloc(st, T([], 'harness::Emit'))),
+                              (True, mk_str('set'), e.alloc(st, T([mk_str('std')], 'sdk::std::var::set::CommandImpl'))),
+                              (True, mk_str('not'), e.alloc(st, T([mk_str('std')], 'sdk::std::not::CommandImpl')))]), M([])], 'types::command::Commands')
+    e.run_call('sdk::std::flowcontrol::load', st, [P(0, 'cmds'), mk_str('std')], 'sdk')
+    commands = st.m[(0, 'cmds')]
+    aitems = [S(1, [e.fresh_int('arr.%d' % k, ord('p'), ord('q'))]) for k in range(alen)]
+    lst = E('types::runtime::StateValue', LIST, {LIST: [V(alen, [E('types::runtime::StateValue', STR, {STR: [x]}) for x in aitems])]})
+    state = M([(True, mk_str('handles'), E('types::runtime::StateValue', SUB, {SUB: [M([(True, mk_str('handle:arr'), lst)])]}))])
+    init = {'arr': mk_str('handle:arr'), 'c1': mk_str(c1), 'c2': mk_str(c2), 'g': mk_str('G')}
+    variables = M([(True, mk_str(n_), v_) for n_, v_ in init.items()])
+    instrs = []
+    for i, l in enumerate(lines):
+        toks = l.split(); out = None
+        if len(toks) >= 2 and toks[1] == '=': out = toks[0]; toks = toks[2:]
+        si = T([none(), some(mk_str(out)) if out else none(), some(mk_str(toks[0])), some(V(len(toks) - 1, [mk_str(t) for t in toks[1:]])) if len(toks) > 1 else none()], 'types::instruction::ScriptInstruction')
+        instrs.append(T([meta_new(i + 1), E('types::instruction::InstructionType', 2, {2: [si]})], 'types::instruction::Instruction'))
+    context = T([variables, state, commands], 'types::runtime::Context')
+    env = some(T([Opaque('out'), Opaque('err'), e.alloc(st, False)], 'types::env::Env'))
+    return e, st, instrs, context, env, aitems, init
 
 
 def job_runs(ctx, jr, seeds, depth, size):
@@ -160,44 +241,11 @@ def job_runs(ctx, jr, seeds, depth, size):
         lines = render(fns, main, sp, rnd)
         jr.samples.append(' | '.join(lines))
         for c1, c2, alen in itertools.product(['true', 'false'], ['true', 'false'], [0, 1, 2]):
-            e = ctx.engine(unwind=1500, max_rec=8); e.int_digits = 2      # a cap on fetch/execute iterations, far above any generated program's run
-            e.hooks['utils::state::put_handle'] = hook_put_handle
-            e.hooks['std::sync::atomic::Atomic::<bool>::load'] = lambda eng, st1, a, c: False
             t0 = time.time()
-            st = State(True, {})
-
-            def h_emit(eng, st1, a):
-                c = a[1]; vars_p = c.f[2]; mv = eng.deref(st1, vars_p)
-                # the trace lives in the state (not in the variables: scoped functions hide variables)
-                sp_ = c.f[1]; sm = eng.deref(st1, sp_)
-                f, tr, _ = map_lookup(eng, st1, sm, mk_str('harness::trace'))
-                old = tr.p[STR][0] if f is not False and isinstance(tr, E) else S(0, [])
-                add = S(0, [])
-                for i, x in enumerate(c.f[0].it): add = merge(simp(i < c.f[0].len), str_concat(add, x), add)
-                m2, _, _ = map_insert(eng, st1, sm, mk_str('harness::trace'), E('types::runtime::StateValue', STR, {STR: [str_concat(old, add)]}))
-                eng.store(st1, sp_, m2)
-                return E(CRES, 0, {0: [none()]})
-            e.dyn_impls[('harness::Emit', 'run')] = h_emit
-            e.dyn_impls[('harness::Emit', 'clone_and_box')] = lambda eng, st1, a: eng.alloc(st1, a[0])
-            st.m[(0, 'cmds')] = T([M([(True, mk_str('emit'), e.alloc(st, T([], 'harness::Emit'))),
-                                      (True, mk_str('set'), e.alloc(st, T([mk_str('std')], 'sdk::std::var::set::CommandImpl')))]), M([])], 'types::command::Commands')
-            e.run_call('sdk::std::flowcontrol::load', st, [P(0, 'cmds'), mk_str('std')], 'sdk')
-            commands = st.m[(0, 'cmds')]
-            aitems = [S(1, [e.fresh_int('arr.%d' % k, ord('p'), ord('q'))]) for k in range(alen)]
-            lst = E('types::runtime::StateValue', LIST, {LIST: [V(alen, [E('types::runtime::StateValue', STR, {STR: [x]}) for x in aitems])]})
-            state = M([(True, mk_str('handles'), E('types::runtime::StateValue', SUB, {SUB: [M([(True, mk_str('handle:arr'), lst)])]}))])
-            init = {'arr': mk_str('handle:arr'), 'c1': mk_str(c1), 'c2': mk_str(c2), 'g': mk_str('G')}
-            variables = M([(True, mk_str(n_), v_) for n_, v_ in init.items()])
-            instrs = []
-            for i, l in enumerate(lines):
-                toks = l.split(); out = None
-                if len(toks) >= 2 and toks[1] == '=': out = toks[0]; toks = toks[2:]
-                si = T([none(), some(mk_str(out)) if out else none(), some(mk_str(toks[0])), some(V(len(toks) - 1, [mk_str(t) for t in toks[1:]])) if len(toks) > 1 else none()], 'types::instruction::ScriptInstruction')
-                instrs.append(T([meta_new(i + 1), E('types::instruction::InstructionType', 2, {2: [si]})], 'types::instruction::Instruction'))
-            context = T([variables, state, commands], 'types::runtime::Context')
-            env = some(T([Opaque('out'), Opaque('err'), e.alloc(st, False)], 'types::env::Env'))
+            e, st, instrs, context, env, aitems, init = engine_setup(ctx, lines, c1, c2, alen)
             try:
                 exp_trace, exp_env = interp(fns, main, init, {'handle:arr': aitems})
+                open_vars = sorted(k for k, v in exp_env.items() if v is None); exp_env = {k: v for k, v in exp_env.items() if v is not None}
             except RuntimeError as ex:
                 jr.notes.append('seed %d skipped: %s' % (sd, ex)); break
             rs, rv = e.run('core', 'runner::run', [V(len(instrs), instrs), context, env], st)
@@ -213,14 +261,16 @@ def job_runs(ctx, jr, seeds, depth, size):
                 checks.append(('the trace of executed commands with their argument values equals the reference interpreter (calls, returns, scopes)', zimp(zeq(rv.d, 0), str_eq(got, exp_trace))))
                 # caller variables after all calls: outputs and ordinary variables (positional variables of unscoped calls are not constrained)
                 for name in sorted(set(list(exp_env) + ['x0', 'x1', 's', 'g']) - {'i'}):
-                    if name.isdigit(): continue
+                    if name.isdigit() or name in open_vars: continue
                     f2, v2, _ = map_lookup(e, rs, fin, mk_str(name))
                     checks.append(('final variable %s defined as in the reference' % name, zimp(zeq(rv.d, 0), zeq(f2, name in exp_env))))
                     if name in exp_env and f2 is not False: checks.append(('final variable %s value' % name, zimp(zand(zeq(rv.d, 0), f2), str_eq(v2, exp_env[name]))))
             for msg, c in checks: e.obligations.append(Obligation(rs.g, c, 'C05 run(seed %d): %s' % (sd, msg), 'assert', 'oracle'))
 
+            got_tr = [got] if 0 in rv.p else []
+
             def extract(m, o=None):
-                return dict(kind='c05', script=lines, vars=dict(c1=c1, c2=c2, g='G'), array=[solve.model_str(m, x) for x in aitems], expected_trace=solve.model_str(m, exp_trace),
+                return dict(kind='c05', engine_trace=[solve.model_str(m, x) for x in got_tr], script=lines, vars=dict(c1=c1, c2=c2, g='G'), array=[solve.model_str(m, x) for x in aitems], expected_trace=solve.model_str(m, exp_trace), open_vars=open_vars,
                             expected_vars={k: solve.model_str(m, v) for k, v in exp_env.items() if not k.isdigit() and k not in ('i', 'arr')})
             classes = {'forin-left-by-return': (True, ('assert',))} if _has_return_in_for(fns) else {}
             res = discharge_known(e, jr, PID, classes, extract)
@@ -255,8 +305,8 @@ def fn_panel(sp_cache={}):
             init = {'arr': mk_str('handle:arr'), 'c1': mk_str(c1), 'c2': mk_str(c2), 'g': mk_str('G')}
             try: tr, env = interp(fns, main, init, {'handle:arr': [mk_str('p'), mk_str('q')]})
             except RuntimeError: continue
-            cases.append(dict(kind='c05', script=lines, vars=dict(c1=c1, c2=c2, g='G'), array=['p', 'q'], expected_trace=str_concrete(tr),
-                              expected_vars={k: str_concrete(v) for k, v in env.items() if not k.isdigit() and k not in ('i', 'arr')}))
+            cases.append(dict(kind='c05', script=lines, vars=dict(c1=c1, c2=c2, g='G'), array=['p', 'q'], expected_trace=str_concrete(tr), open_vars=sorted(k for k, v in env.items() if v is None),
+                              expected_vars={k: str_concrete(v) for k, v in env.items() if v is not None and not k.isdigit() and k not in ('i', 'arr')}))
     return cases
 
 
@@ -275,7 +325,7 @@ def replayer(v):
     fixh = lambda t: t.replace(real, 'handle:arr') if real else t
     trace = fixh(''.join(''.join(l['arguments']) for l in out.get('log', [])))
     if trace != v['expected_trace']: return (True, 'native trace %r, reference %r' % (trace, v['expected_trace']))
-    got = {k: fixh(x) for k, x in out['vars'].items() if k in v['expected_vars'] or k in ('x0', 'x1', 's', 'g')}
+    got = {k: fixh(x) for k, x in out['vars'].items() if (k in v['expected_vars'] or k in ('x0', 'x1', 's', 'g')) and k not in v.get('open_vars', ())}
     exp = dict(v['expected_vars'])
     return (got != exp, 'native vars %r, reference %r' % (got, exp))
 
@@ -291,7 +341,7 @@ def main(tier, seed):
     chk.assumptions = ['whole runs through the real runner, the real function/return/end commands, scope push/pop and the other flow-control commands (registry built by executing flowcontrol::load) against a reference interpreter with real call frames',
                        'programs are generated (seeded); the control-flow dimension is enumerated exhaustively per program, the data dimension (array items) is decided by the solver',
                        'left open as in the property: positional variables after unscoped calls; scoped call ending without a value into an output variable that already held a value (fresh output names are generated)',
-                       'calls in condition position are not generated (they go through utils::eval, C09)']
+                       'calls in condition position (if [not] f args) are generated with concrete argument words; inside them, output variables of calls that end without a value are left open as in the property (a program that reads one is skipped)']
     results = chk.run()
     return chk.finish(results, 'per program and control assignment: solver query over the symbolic data; control assignments enumerated exhaustively')
 
